@@ -129,7 +129,7 @@ func (vfs *MemFS) Chmod(name string, mode fs.FileMode) error {
 func (vfs *MemFS) Chown(name string, uid, gid int) error {
 	const op = "chown"
 
-	if (vfs.HasFeature(avfs.FeatIdentityMgr) && !vfs.User().IsAdmin()) || vfs.OSType() == avfs.OsWindows {
+	if vfs.OSType() == avfs.OsWindows {
 		return &fs.PathError{Op: op, Path: name, Err: vfs.err.OpNotPermitted}
 	}
 
@@ -139,8 +139,13 @@ func (vfs *MemFS) Chown(name string, uid, gid int) error {
 	}
 
 	child.Lock()
+	defer child.Unlock()
+
+	if vfs.HasFeature(avfs.FeatIdentityMgr) && !child.mayChown(uid, gid, vfs.User()) {
+		return &fs.PathError{Op: op, Path: name, Err: vfs.err.OpNotPermitted}
+	}
+
 	child.setOwner(uid, gid, vfs.User())
-	child.Unlock()
 
 	return nil
 }
@@ -315,7 +320,7 @@ func (vfs *MemFS) Join(elem ...string) string {
 func (vfs *MemFS) Lchown(name string, uid, gid int) error {
 	const op = "lchown"
 
-	if (vfs.HasFeature(avfs.FeatIdentityMgr) && !vfs.User().IsAdmin()) || vfs.OSType() == avfs.OsWindows {
+	if vfs.OSType() == avfs.OsWindows {
 		return &fs.PathError{Op: op, Path: name, Err: vfs.err.OpNotPermitted}
 	}
 
@@ -325,8 +330,13 @@ func (vfs *MemFS) Lchown(name string, uid, gid int) error {
 	}
 
 	child.Lock()
+	defer child.Unlock()
+
+	if vfs.HasFeature(avfs.FeatIdentityMgr) && !child.mayChown(uid, gid, vfs.User()) {
+		return &fs.PathError{Op: op, Path: name, Err: vfs.err.OpNotPermitted}
+	}
+
 	child.setOwner(uid, gid, vfs.User())
-	child.Unlock()
 
 	return nil
 }
